@@ -4,7 +4,8 @@ import JSight.Model.Include
 `core/scan_project.go setCurrentDirective` (a keyword of a banned kind is refused when it is read — after the
 previous directive has been placed and after the JSIGHT-in-an-included-file check) and of `core/include.go
 processInclude` (after the directive written before it has been placed, a banned INCLUDE is refused before its file
-name is validated or looked up).
+name is validated or looked up).  As in `Model/Include.lean`, the unclosed-parenthesis check of `processEOF` is made at
+the end of the ROOT file only (repair of `processEOF`).
 -/
 namespace JSight
 open Gen
@@ -26,10 +27,10 @@ def flushPendingB (st : PScan) : Except ProjErrB PScan :=
 
 def scanIncFileB (banned : List Kind) (fs : FS) : Nat → List (Nat × Nat) → Nat → Nat → List FTok → PScan → Except ProjErrB PScan
   | 0, _, _, _, _, _ => .error (.inc .fuel)
-  | _ + 1, _, _, _, [], st =>
+  | _ + 1, stack, _, _, [], st =>
     match flushPendingB st with
     | .error e => .error e
-    | .ok st' => if anyExplicit st'.ctx.frames then .error (.ctx .unclosedAtEOF) else .ok st'
+    | .ok st' => if stack.isEmpty && anyExplicit st'.ctx.frames then .error (.ctx .unclosedAtEOF) else .ok st'
   | fuel + 1, stack, cur, pos, t :: rest, st =>
     match t with
     | .dir d =>
